@@ -1,5 +1,6 @@
 """C20 — Readiness wakes exactly the waiting coroutine, promptly (structural clauses)."""
 from rules.common import start
+from rules import wave3
 from rules import wave2
 from rules import selector
 
@@ -20,4 +21,6 @@ def run(tier):
     selector.machine_rule(run, f, "C20-INTEREST-MACHINE")
     # clauses added for the wave-2 seeds (rules/wave2.py; DESIGN 12a)
     wave2.poll_every_round_rule(run, f, "C20-POLL-EVERY-ROUND")
+    # clauses added for the wave-2 seeds (rules/wave2.py; DESIGN 12a)
+    wave3.fresh_events_rule(run, f, "C20-FRESH-EVENTS")
     return run.finish()
